@@ -60,4 +60,10 @@ def outLeaves : List Out → List OutLeaf
   | .wire l :: rest => l :: outLeaves rest
   | .newArray _ _ ls :: rest => ls ++ outLeaves rest
 
+/-- number of loads among the events -/
+def loadsIn : List Event → Nat
+  | [] => 0
+  | .load _ _ :: evs => loadsIn evs + 1
+  | .other :: evs => loadsIn evs
+
 end GuppyVerif.Pytket
